@@ -737,7 +737,10 @@ def registryLookup (name : String) : Option String :=
   | some d => some d
   | none => (List.lookup name registryAliases).bind (fun t => List.lookup t registryDefs)
 
-/-- `Parse` -/
+/-- `Parse`.  A PURE function of the text and of the registry, and the registry (`registryDefs`,
+`registryAliases`: what `init` of global.go stores) is a CONSTANT: no `Parse` writes to it.  (The
+harness checks this on the real code with one-line histories `reghist`: parse texts that carry
+registered codes in AUTHORITY clauses, then compare every registered name with its definition.) -/
 def parse (c : Str) : Except Err (SR α) :=
   match registryLookup (String.ofList c) with
   | some d => parseDef d.toList     -- `init` stored `Parse(def)`; the pointer is shared
